@@ -221,15 +221,32 @@ def lintLostCalleeSaved (g : Cfg) : List Diag :=
       else none
     | none => none
 
+/-- `a.token.range().cmp(&b.token.range()).then_with(|| a.name.cmp(&b.name))`, strict part:
+    ranges compare by the raw offsets of their ends (a position's order is its offset, whatever
+    the file), and the name decides between labels of different files at the same offsets -/
+def labelBefore (a b : W String) : Bool :=
+  decide (a.tok.range.start.raw < b.tok.range.start.raw) ||
+  (a.tok.range.start.raw == b.tok.range.start.raw &&
+    (decide (a.tok.range.stop.raw < b.tok.range.stop.raw) ||
+     (a.tok.range.stop.raw == b.tok.range.stop.raw && decide (a.val < b.val))))
+
+def firstLabelStep (acc : Option (W String)) (l : W String) : Option (W String) :=
+  match acc with
+  | none => some l
+  | some m => if labelBefore l m then some l else some m
+
+/-- `labels.iter().min_by(..)`: a function of the set of labels -/
+def firstLabel (ls : List (W String)) : Option (W String) := ls.foldl firstLabelStep none
+
 def lintOverlapping (g : Cfg) : List Diag :=
   (List.range g.nodes.size).filterMap fun i =>
     let cn := g.get i
     if cn.funcs.length > 1 && cn.funcs.contains i then
-      match cn.labels with
-      | l :: _ =>
-        -- reported at the label written first (the labels are kept in source order)
+      match firstLabel cn.labels with
+      | some l =>
+        -- reported at the label written first
         some (lintDiag "NodeInManyFunctions" l.tok.range l.tok.file l.tok.text)
-      | [] => none
+      | none => none
     else none
 
 /-- `Manager::run_diagnostics` -/
